@@ -391,7 +391,7 @@ func (r *run) all(mode int) {
 			switch ctx {
 			case "in-token", "token-end", "in-sharp-number", "sharp-number-end", "after-dispatch":
 				// a cut inside a token, the one place the carry-over is made for: name the token as well
-				ctx += " token=" + t.tokenClassAt(k)
+				ctx += " token=" + family(t.tokenClassAt(k))
 			}
 		}
 		st := readStream(src, c, &cutReader{data: []byte(src), cuts: cuts})
@@ -786,6 +786,19 @@ func (r *run) truncations() {
 				fmt.Sprintf("ReadOne on %q from offset %d %s", prefix, off, what))
 		}
 	}
+}
+
+// family coarsens a token class for the cut-inside-a-token signatures.
+func family(class string) string {
+	switch class {
+	case "integer", "ratio", "float", "number-like", "time":
+		return "number"
+	case "list", "dotted-list", "vector", "array":
+		return "compound"
+	case "symbol", "constant", "character", "radix-integer", "bit-vector", "pipe-symbol", "string", "":
+		return class
+	}
+	return "quoted" // quote-of-x, function-of-x, backquote-of-x
 }
 
 // delta renders a position error: exact when it is one byte, else only its direction.
